@@ -38,6 +38,8 @@ func main() {
 		os.Exit(explain(os.Args[2:]))
 	case "callees":
 		os.Exit(callees(os.Args[2:]))
+	case "graph":
+		os.Exit(graphDump(os.Args[2:]))
 	default:
 		fmt.Fprintln(os.Stderr, "unknown command", os.Args[1])
 		os.Exit(2)
